@@ -208,9 +208,9 @@ func TestCheck(t *testing.T) {
 			if want.String() != before.String() {
 				run.Distinct(want.String() + "|" + before.String())
 			}
+			run.Eval(1) // one evaluation = one reconciliation
 		}
 		mon.Report(run, caseID, trace, probs)
-		run.Eval(1)
 		run.Seen("modes", mode)
 		if i < 2 {
 			run.Sample(map[string]any{"case": caseID, "trace": trace})
